@@ -12,7 +12,7 @@ import numpy as np
 from common import Case, Failure, f2x, x2f, flist, ilist, parse_flist, call, close_vec, err_kind
 
 PID = 'C19'
-LEAN_TARGETS = ['Nitime.Props.C19', 'Nitime.Props.C19Rows']
+LEAN_TARGETS = ['Nitime.Props.C19', 'Nitime.Props.C19Rows', 'Nitime.Props.C19Fail']
 RULE = ('planted designs from one PRNG state: response length L 2..8 (quick; to 32 thorough), 1-3 event types from '
         '{1,2,3,5,7,-1,-2,-3}, overlapping (FIR) or separated (ETA/ETS/et_data) placements, 1-d / 1-3 channel data, '
         'shared or per-channel events, offsets 0..3 (-3..3 for Events input), correct_baseline/zscore flags, 10 sampling '
@@ -157,13 +157,26 @@ def build(sp, shared=None):
     else:
         data = as_stored(sp['data'], sp.get('dtype'), sp.get('ro'))
         data = data.reshape((nch, N)) if nch else data
-        T = ts.TimeSeries(data, time_unit=sp['unit'], **interval_arg(sp))
-        if sp['kind'] == 'series' or sp.get('base') == 'series':
-            ev = np.array(sp['ev'], dtype=float if sp.get('evfloat') else int)
+        is_series = sp['kind'] == 'series' or sp.get('base') == 'series'
+        ev = None
+        if is_series:
+            import c19_r2
+            evv = c19_r2.real_codes(sp)      # the codes as the caller writes them (1.5, 200, -0.0 ...); sp['ev'] = their ranks
+            ev = np.array(evv, dtype=float if (sp.get('evfloat') or sp.get('codes_real')) else int)
             if sp.get('evdtype'):
-                ev = as_stored(sp['ev'], sp['evdtype'], sp.get('ro'))
+                ev = as_stored(evv, sp['evdtype'], sp.get('ro'))
             ev = ev.reshape((sp['evch'], N)) if sp['evch'] else ev
-            E = ts.TimeSeries(ev, time_unit=sp['unit'], **interval_arg(sp))
+        if sp.get('alias'):
+            import c19_r2
+            data, ev = c19_r2.alias_arrays(sp, data, ev)       # L8: views of one base array, strided / reversed / transposed views
+        T = ts.TimeSeries(data, time_unit=sp['unit'], **interval_arg(sp))
+        if is_series:
+            if sp.get('alias') == 'same':       # f(x, x): ONE series object in both roles (an integer-coded recording)
+                E = T
+            else:
+                E = ts.TimeSeries(ev, time_unit=sp['unit'], **interval_arg(sp))
+        elif sp.get('alias') == 'timeview':     # Events built from a view of the recording's own time axis
+            E = ts.Events(T.time[np.array(sp['slots'], dtype=int)])
         else:
             tm = ts.TimeArray(np.array(sp['times'], dtype=np.int64), time_unit='ps')
             if sp.get('evunit'):
@@ -671,6 +684,12 @@ def variant_tag(sp):
         return '/evdtype-' + sp['evdtype'].lstrip('<>=')
     if sp.get('rowcodes'):
         return '/rowcodes'
+    if sp.get('alias'):
+        return '/alias-' + sp['alias']
+    if sp.get('codes_real') or sp.get('negzero'):
+        return '/codes'
+    if sp.get('edge'):
+        return '/edge-' + sp['edge']
     return ''
 
 
@@ -1079,11 +1098,22 @@ def extra_cases(sp, c):
 
 
 def cases(rng, tier, seed):
+    import c19_r2
     out = []
-    for sp in gen_specs(rng, tier):
+    specs = gen_specs(rng, tier)
+    # round 2: both sides of every guard / range of the anchored code (L7), aliased argument forms (L8)
+    specs += c19_r2.guard_specs(rng, tier) + c19_r2.alias_specs(rng, tier)
+    for sp in specs:
         c = mk_case(sp)
         out.append(c)
         out += extra_cases(sp, c)
+    # failure histories on one analyzer object (L7): the refused sequences through the model, the histories for the oracle
+    out += c19_r2.gramdiag_cases(specs)
+    hist = c19_r2.history_specs(rng, tier)
+    out += c19_r2.model_cases(rng, tier, hist)
+    for sp, fam, sd in hist:
+        row = ev_rows(sp)[0] if sp['kind'] == 'series' else [1]
+        out.append(Case('C19 types %s' % ilist(row), 'ok ' + ilist(my_types(row)), 'hist/' + fam, meta={'kind': 'hist', 'spec': sp, 'family': fam, 'fseed': sd}))
     return out
 
 
@@ -1119,6 +1149,9 @@ def check_case(c):
     sp = c.meta
     if sp['kind'] in ('design', 'designsum'):
         return check_design(c)
+    if sp['kind'] == 'gramdiag':
+        import c19_r2
+        return c19_r2.check_gramdiag(c)
     if sp['kind'] == 'planted':
         return None
     if sp['kind'] == 'seq':
@@ -1529,11 +1562,22 @@ def oracle(rng, tier, seed, focus, cases=None):
                     f.case = c
                     fails.append(f)
                 continue
+            if c.meta.get('kind') == 'hist':
+                import c19_r2
+                fails += c19_r2.failure_failures(c.meta['spec'], c.meta['family'], c.meta['fseed'])
+                continue
             f = check_case(c)
             if f:
                 fails.append(f)
     mf, mn = metamorphic(rng, cases or [])
     fails += mf
+    # L8: the caller overwrites the recording in place between two analyzers built on the same input objects
+    import c19_r2
+    pool = [c for c in (cases or []) if c.meta and c.meta.get('kind') in ('series', 'events') and c.meta.get('planted')
+            and 'gains' not in c.meta and not c.impl.startswith('err') and not c.meta.get('many') and not c.meta.get('rank_deficient')]
+    for i, c in enumerate(pool[3::(11 if len(pool) < 6000 else 60)]):
+        fails += c19_r2.inplace_failures(c.meta, seed * 1000 + i)
+        mn += 1
     for f in fails:
         f.replay['key'] = f.key
     # smallest failing input first (it is the one recorded per key)
@@ -1556,6 +1600,15 @@ def replay(d):
 def _replay(d):
     sp = dict(d['spec'])
     sp.pop('rank_deficient', None)
+    if d.get('gramdiag'):
+        import c19_r2
+        cs = c19_r2.gramdiag_cases([{'kind': 'series', 'what': 'fir', 'many': True, 'nch': 0, 'ev': sp['ev'], 'L': sp['L']}])
+        return c19_r2.check_gramdiag(cs[0])
+    if d.get('fail') or d.get('inplace'):
+        import c19_r2
+        fs = c19_r2.failure_failures(sp, d['fail'], d.get('fseed', 0)) if d.get('fail') else c19_r2.inplace_failures(sp, d.get('fseed', 0))
+        same = [f for f in fs if f.key == d.get('key')]
+        return same[0] if same else (fs[0] if fs else None)
     if d.get('seq'):
         return sequence_check(sp, d['order'], d.get('key'))
     if d.get('inter'):
